@@ -79,4 +79,53 @@ def expandOld (limit R L₀ : Nat) (off : Int) : Out :=
   let total : Int := (limit : Int) + off
   if total < 0 ∨ total > (maxUint32 : Int) then .range else adjustOld R total.toNat 3 0 L₀
 
+/-! ## the directives of a test case, and of a whole suite (`parseTestSuites`) -/
+
+/-- one request message of a test case: `r`/`l0` as above and its directive — `none`: no
+directive for this message, or a directive without a size ("do not expand this one") -/
+structure Directive where
+  r : Nat
+  l0 : Nat
+  off : Option Int
+
+/-- the `for` loop of `expandRequestData` over the messages: the new padding lengths, or `none`
+as soon as one directive ends in an error -/
+def expandMsgs (limit : Nat) : List Directive → Option (List Nat)
+  | [] => some []
+  | d :: ds =>
+    match d.off with
+    | none => (expandMsgs limit ds).map (d.l0 :: ·)
+    | some off =>
+      match expand limit d.r d.l0 off with
+      | .ok L => (expandMsgs limit ds).map (L :: ·)
+      | _ => none
+
+/-- one test case of a suite file: `directives` = `len(expand_requests)` (directives without a
+size count), `msgs` = the request messages, each with the size its directive gives, if any -/
+structure SuiteCase where
+  directives : Nat
+  msgs : List Directive
+
+def SuiteCase.hasDirectives (c : SuiteCase) : Bool := 0 < c.directives
+
+/-- more directives than request messages -/
+def SuiteCase.tooMany (c : SuiteCase) : Bool := c.msgs.length < c.directives
+
+/-- `expandRequestData` on one test case -/
+def expandCase (limit : Nat) (c : SuiteCase) : Option (List Nat) :=
+  if c.tooMany then none else expandMsgs limit c.msgs
+
+/-- The loop of `parseTestSuites` over the test cases of one suite, as far as expansion is
+concerned.  `protoOnly`: `relevantCodecs` is exactly `[CODEC_PROTO]` (anything else is refused
+for a case with directives); `relies` is the suite's `reliesOnMessageReceiveLimit` — like every
+other suite attribute it is NOT consulted: directives are processed in every suite.  Result:
+the padding lengths of every message of every case, or `none` = the suite is rejected. -/
+def parseSuite (limit : Nat) (protoOnly : Bool) (relies : Bool) : List SuiteCase → Option (List (List Nat))
+  | [] => some []
+  | c :: cs =>
+    if c.hasDirectives && !protoOnly then none else
+    match expandCase limit c with
+    | none => none
+    | some ls => (parseSuite limit protoOnly relies cs).map (ls :: ·)
+
 end ConfModel.Expand
